@@ -30,6 +30,8 @@ type executeUnit struct {
 	mmu    *memoryManagementUnit
 
 	// Pending
+	fetching   bool
+	fetchBase  int32
 	memory     []int8
 	runner     risc.InstructionRunnerPc
 	sequenceID int32
@@ -108,6 +110,7 @@ func (u *executeUnit) prepareRun(r euReq) euResp {
 			return euResp{}
 		} else {
 			remainingCycles := latency.MemoryAccess - 1
+			u.fetching, u.fetchBase = true, addrs[0]-addrs[0]%l3CacheLineSize
 			u.Checkpoint(func(r euReq) euResp {
 				if remainingCycles > 0 {
 					log.Infoi(r.ctx, "EU", u.runner.Runner.InstructionType(), u.runner.Pc, "pending memory access %d", remainingCycles)
@@ -118,6 +121,7 @@ func (u *executeUnit) prepareRun(r euReq) euResp {
 				base := addrs[0] - addrs[0]%l3CacheLineSize
 				line := u.mmu.fetchCacheLine(base)
 				u.mmu.pushLineToL3(comp.AlignedAddress(base), line)
+				u.fetching = false
 				m, _, exists := u.mmu.getFromL3(addrs)
 				if !exists {
 					panic("cache line doesn't exist")
@@ -188,6 +192,11 @@ func (u *executeUnit) run(r euReq) euResp {
 func (u *executeUnit) flush() {
 	u.Reset()
 	u.sequenceID = 0
+	if u.fetching {
+		// The line fetch of the flushed load will never complete
+		u.mmu.cancelPending(u.fetchBase)
+		u.fetching = false
+	}
 }
 
 func (u *executeUnit) isEmpty() bool {
